@@ -8,7 +8,8 @@ from .. import a3common
 from ..selftest import Mutant, Rewrite
 
 EXPLANATION = ("R1: typestate analysis (abstract interpretation of the source of the 13 Automat machine classes + "
-               "RendezvousConnector, composed; every interleaving of API calls, connection loss/re-open and "
+               "RendezvousConnector, composed - and, in the `dilation` environment, Dilator and the dilation Manager machine "
+               "created by dilate(); every interleaving of API calls, connection loss/re-open and "
                "conformant-server deliveries) - reports every reachable undeclared (state,input) pair and every "
                "reachable failing assertion on a tracked attribute. R2: CFG rule - the catch-all handlers of "
                "RendezvousConnector.ws_message/ws_open call Boss.error on every path.")
@@ -22,7 +23,7 @@ def r1(tree, rep, tier):
     sums = a3common.explorations(tree, tier, rep.seed, rep)
     a3common.fill_extra(rep, sums)
     for envname, s in sums.items():
-        bad = [v for v in s.viol if v["kind"] in ("NoTransition", "Assert")]
+        bad = [v for v in s.viol if v["kind"] in ("NoTransition", "Assert", "Raise", "no-instance", "second-instance")]
         rep.check("C14.R1", "no reachable undeclared (state,input) pair / failing assertion in environment '%s' "
                   "(%d states, %d transitions, %d machine rows exercised)" % (envname, s.nstates, s.ntrans, len(s.fired_rows)),
                   True, evals=1)
@@ -31,7 +32,8 @@ def r1(tree, rep, tier):
         for v in bad:
             key = "C14.R1:%s:%s" % (v["kind"], v["detail"])
             what = "%s %s is reachable (environment %s)" % (
-                "undeclared pair" if v["kind"] == "NoTransition" else "failing assertion", v["detail"], envname)
+                {"NoTransition": "undeclared pair", "Assert": "failing assertion", "Raise": "explicit internal-error raise"}.get(v["kind"], v["kind"]),
+                v["detail"], envname)
             if envname == "postclose":
                 # helper calls after close() are outside the legal-API set (T3); reported, never a verdict
                 if not any(x["key"] == key for x in rep.violations):
@@ -113,6 +115,10 @@ MUTANTS = [
     Mutant("ws_open-no-Berror", RDV, "        except Exception as e:\n            self._B.error(e)\n            raise\n        self._debug(\"R.connected finished",
            "        except Exception as e:\n            raise\n        self._debug(\"R.connected finished", "C14.R2", ""),
 ]
+MUTANTS.append(Mutant("dilate-message-not-gated", "src/wormhole/_dilation/manager.py",
+                      "        if self._manager and self._manager_has_versions:\n            while self._pending_inbound_dilate_messages:",
+                      "        if self._manager:\n            while self._pending_inbound_dilate_messages:", "C14.R1",
+                      "peer's dilate-0 delivered before its version reaches a Manager still WAITING"))
 REWRITES = [
     Rewrite("add-ignore-row", _B, "    S4_closed.upon(error, enter=S4_closed, outputs=[])\n",
             "    S4_closed.upon(error, enter=S4_closed, outputs=[])\n    S4_closed.upon(rx_error, enter=S4_closed, outputs=[])\n",
